@@ -15,6 +15,9 @@ def gen_member(r):
     ident = r.choice([None, None, "m" + str(r.randint(1, 99))])
     # a member's own mode settings must hold in every kind of run
     nomatch = r.random() < 0.2
+    if r.random() < 0.25:
+        # what a member knows about the whole file must not depend on who created it
+        mp += " " + r.choice(['@tl = total_lines()', 'push("tl", total_lines())', 'push("cl", count_lines())', '@pc = percent("line")'])
     return {"match": mp, "ident": ident, "nomatch": nomatch}
 
 
